@@ -109,7 +109,7 @@ def check(case):
                 and not (fmin < lo - 0.5 or fmax > hi + 0.5):
             continue  # nothing ordinary is left inside the requested span: outside C04's "mixing ordinary intervals" domain
         for blanks in (True, False):
-            for fmt in FMTS:
+            for fmt in (FMTS if ov in ("none", "both") else (FMTS[0], FMTS[3]) if blanks else (FMTS[1],)):
                 n += 1
                 cfg = f"save({fmt}, includeBlankSpaces={blanks}, min={omin!r}, max={omax!r}, minimumIntervalLength={thr!r}) [{ov}]"
                 st, r, _ = call(tg.save, fn, fmt, blanks, omin, omax, thr, "silence")
@@ -242,7 +242,7 @@ def parts(tier):
         "slivers", lambda: gen(quick), check,
         rule="all segment sequences over {ordinary labelled, ordinary gap, labelled sliver, gap sliver} of length <=%d with at least "
              "one ordinary segment and <=3 slivers x sliver lengths x base times {0,0.3,1} x thresholds {None,1e-8,0.06}; each case "
-             "runs 13 span overrides (none, equal, below/above/both by 1 s, just below/above by a sliver, inside an unlabelled leading/trailing stretch, inside the data) x includeBlankSpaces x 4 formats; non-trivial = distinct (sequence, threshold, exact sliver "
+             "runs 13 span overrides (none, equal, below/above/both by 1 s, just below/above by a sliver, inside an unlabelled leading/trailing stretch, inside the data) x includeBlankSpaces x formats (all 4 for 'none'/'both', short + textgrid_json otherwise), on a textgrid with two identical interval tiers and a point tier; non-trivial = distinct (sequence, threshold, exact sliver "
              "classification)" % (4 if quick else 5),
         bounds={"max_segments": 4 if quick else 5, "sliver_lengths": list((1e-12, 9.9e-9, 1e-8, 1.1e-8) if quick else D.SLV)},
         snippet=_snippet, chunk=8)]
